@@ -36,7 +36,7 @@ func loopBypass(hdr, B *ssa.BasicBlock, del func(fw.Cond) bool) bool {
 }
 
 func (c *c08ctx) ruleToGoJQ() {
-	ru := c.r.Rule("C08.togojq", "JQValueToGoJQ of each wrapper is the plain Go value of the same payload/collection the sibling methods consult: scalars return their payload in its plain Go type, decode arrays/structs convert every child in order (struct: keyed by the child's own name) and drop a child only if it is a gap and SkipGaps is set, the no-option form never skips, non-raw decode scalars forward to the wrapped value", 12)
+	ru := c.r.Rule("C08.togojq", "JQValueToGoJQ of each wrapper is the plain Go value of the same payload/collection the sibling methods consult: scalars return their payload in its plain Go type, decode arrays/structs convert every child in order (struct: keyed by the child's own name) and drop a child only if it is a gap and SkipGaps is set, the no-option form never skips, non-raw decode scalars forward to the wrapped value, raw ones use their binary form with the caller's options exactly when the scalar is not synthetic", 13)
 	plain := []struct {
 		kind, meth, want, goType string
 	}{
@@ -297,6 +297,7 @@ func (c *c08ctx) ruleToGoJQ() {
 			msgs = append(msgs, "never forwards to the wrapped value")
 		}
 		ru.Check(len(msgs) == 0, key, c.pos(f), "non-raw forwards to wrapped value", strings.Join(uniq(msgs), "; "))
+		c.checkRawToGoJQ(ru, w, f)
 	}
 }
 
@@ -370,7 +371,7 @@ func (c *c08ctx) ruleTyp() {
 // C08.lazy: the lazy wrapper forwards each method to the same method with the same arguments
 
 func (c *c08ctx) ruleLazy() {
-	ru := c.r.Rule("C08.lazy", "every forwarding JQValue wrapper method (gojqx.Lazy) invokes the method of the same name on the produced value with its own parameters in order", 11)
+	ru := c.r.Rule("C08.lazy", "every forwarding JQValue wrapper method (gojqx.Lazy) invokes the method of the same name on the produced value with its own parameters in order; the producer runs before its cached result is returned, value and error are returned in their own slots, and the forwarded call is made only when the producer succeeded", 13)
 	for _, w := range c.wrappers {
 		if w.Obj().Pkg().Path() != fw.Mod+"/internal/gojqx" {
 			continue
@@ -389,6 +390,7 @@ func (c *c08ctx) ruleLazy() {
 		if !isFwd {
 			continue
 		}
+		c.checkLazyMemo(ru, w)
 		for i := 0; i < c.jqv.NumMethods(); i++ {
 			mn := c.jqv.Method(i).Name()
 			top := c.method(w, mn)
@@ -583,43 +585,7 @@ func (c *c08ctx) mapOrderLeaks(f *ssa.Function) []string {
 // ---------------------------------------------------------------------------
 // C08.numlen: length of a number is its absolute value
 
-func (c *c08ctx) ruleNumLen() {
-	ru := c.r.Rule("C08.numlen", "length of a number wrapper is not the identity on its payload (jq's length of a number is its absolute value)", 1)
-	T := c.byKind["number"]
-	f := c.method(T, "JQValueLength")
-	key := tname(T) + ".Length"
-	if f == nil {
-		ru.Undecided(key, "", "JQValueLength not declared")
-		return
-	}
-	e := c.env(f)
-	payload := ""
-	if g := c.method(T, "JQValueToGoJQ"); g != nil {
-		if rcs := fw.ReturnCases(g, 0); len(rcs) == 1 {
-			payload = c.env(g).Term(rcs[0].Val)
-		}
-	}
-	if payload == "" {
-		ru.Undecided(key, c.pos(f), "payload of the number wrapper not resolved")
-		return
-	}
-	var msgs []string
-	// the method must not be the identity on the payload: some way out returns something else
-	// (-x, Abs(x), ...). Which ways, and whether every numeric representation is covered, is not decided.
-	identity := true
-	n := 0
-	for _, rc := range fw.ReturnCases(f, 0) {
-		t := e.Term(rc.Val)
-		n++
-		if t != payload && !(strings.HasPrefix(t, "assert<") && strings.HasSuffix(t, "("+payload+").v")) {
-			identity = false
-		}
-	}
-	if identity && n > 0 {
-		msgs = append(msgs, "returns the raw payload "+payload+" on every path: length of a negative decoded number is negative, but length of its JSON value is the absolute value")
-	}
-	ru.Check(len(msgs) == 0, key, c.pos(f), "absolute value", strings.Join(uniq(msgs), "; "))
-}
+func (c *c08ctx) ruleNumLen() { c.ruleNumLenExact() }
 
 // ---------------------------------------------------------------------------
 // C08.nullsem: a decoded null answers collection questions like the plain null of the embedded engine
